@@ -15,6 +15,8 @@
 //!   not-found; once a context has reported not-found it never succeeds again (no reappearance);
 //! * on a channel that was not removed: it must succeed (seals count 0,1,2,… per context, opens
 //!   return the peer's plaintext);
+//! A fourth family lets the writer remove `x` and then `y` (two flags each: "started" and
+//! "returned"): an operation that ended before the channel's removal started must succeed.
 //! * at the end: a fresh context for a removed channel cannot be set up, `exists` agrees.
 //! In the sequential `strict` scenarios every failure on a removed channel must be exactly
 //! not-found (the concurrent scenarios accept `KeyExpired` from a context that has already
@@ -56,6 +58,8 @@ pub struct Shape {
     /// sequential: the readers run after the removal has returned, and every failure on a
     /// removed channel must be exactly not-found
     pub strict: bool,
+    /// the writer then also removes `y` with `remove(y)` (two removals, two flags)
+    pub then_remove_y: bool,
 }
 
 impl Shape {
@@ -66,12 +70,13 @@ impl Shape {
             .map(|p| p.iter().map(|o| if *o == ROp::X { 'x' } else { 'y' }).collect())
             .collect();
         format!(
-            "c41 {backend} {} {} order={} readers=[{}]{}",
+            "c41 {backend} {}{} {} order={} readers=[{}]{}",
             match self.removal {
                 Removal::One => "remove(x)",
                 Removal::All => "remove_all()",
                 Removal::If => "remove_if(id==x)",
             },
+            if self.then_remove_y { ";remove(y)" } else { "" },
             if self.dir == Dir::Seal { "seal" } else { "open" },
             if self.x_first { "x,y" } else { "y,x" },
             progs.join(" | "),
@@ -85,21 +90,35 @@ enum Ctx<S: AfcState> {
     Open(S::OpenCtx),
 }
 
+/// "the removal of this channel has started / has returned", written by the writer (SeqCst)
+#[derive(Clone)]
+struct Flags {
+    started: Arc<AtomicBool>,
+    returned: Arc<AtomicBool>,
+}
+
+impl Flags {
+    fn new() -> Self {
+        Self { started: Arc::new(AtomicBool::new(false)), returned: Arc::new(AtomicBool::new(false)) }
+    }
+}
+
 struct Handle<S: AfcState> {
     id: LocalChannelId,
     ctx: Ctx<S>,
-    removed: bool,
+    /// `None`: the channel is never removed
+    removal: Option<Flags>,
     /// this context has reported not-found
     dead: bool,
     successes: u64,
 }
 
-fn setup<S: AfcState<CipherSuite = super::world::CS>>(c: &Client<S>, id: LocalChannelId, dir: Dir, removed: bool) -> Handle<S> {
+fn setup<S: AfcState<CipherSuite = super::world::CS>>(c: &Client<S>, id: LocalChannelId, dir: Dir, removal: Option<Flags>) -> Handle<S> {
     let ctx = match dir {
         Dir::Seal => Ctx::Seal(c.setup_seal_ctx(id).expect("set up seal context")),
         Dir::Open => Ctx::Open(c.setup_open_ctx(id).expect("set up open context")),
     };
-    Handle { id, ctx, removed, dead: false, successes: 0 }
+    Handle { id, ctx, removal, dead: false, successes: 0 }
 }
 
 fn run_op<S: AfcState<CipherSuite = super::world::CS>>(
@@ -107,24 +126,47 @@ fn run_op<S: AfcState<CipherSuite = super::world::CS>>(
     h: &mut Handle<S>,
     spec: &ChanSpec,
     which: char,
-    after: bool,
     strict: bool,
 ) -> String {
     stats::op();
+    // read immediately before the operation starts
+    let after = h.removal.as_ref().is_some_and(|f| f.returned.load(Ordering::SeqCst));
     let r = match &mut h.ctx {
         Ctx::Seal(ctx) => seal_once(c, ctx, h.id),
         Ctx::Open(ctx) => open_once(c, ctx, h.id, spec),
     };
+    // read immediately after it ended: if the removal has not even started, the channel was
+    // present during the whole operation
+    let untouched = h.removal.as_ref().is_none_or(|f| !f.started.load(Ordering::SeqCst));
     let kind = if matches!(h.ctx, Ctx::Seal(_)) { "seal" } else { "open" };
-    stats::event(format!("sees removal-returned={after}; {kind}({which}) -> {}", r.short()));
-    if h.removed {
+    stats::event(format!(
+        "{kind}({which}) -> {} [removal of {which}: returned-before-op={after}, not-started-after-op={untouched}]",
+        r.short()
+    ));
+    if untouched {
         match &r {
-            OpResult::Ok(_) => {
+            OpResult::Ok(seq) => {
+                let want = if kind == "seal" { h.successes } else { 0 };
+                if *seq != want {
+                    oracle_fail!("{kind} on a channel that was not removed returned sequence {seq}, expected {want}");
+                }
+                h.successes += 1;
+                stats::count("kept_channel_op_ok");
+            }
+            other => oracle_fail!("{kind} on a channel that was not removed failed: {}", other.short()),
+        }
+    } else {
+        match &r {
+            OpResult::Ok(seq) => {
                 if after {
                     oracle_fail!("{kind} on a removed channel succeeded after the removal had returned");
                 }
                 if h.dead {
                     oracle_fail!("{kind} on a removed channel succeeded after the same context had reported not-found");
+                }
+                let want = if kind == "seal" { h.successes } else { 0 };
+                if *seq != want {
+                    oracle_fail!("{kind} returned sequence {seq}, expected {want}");
                 }
                 stats::count("removed_channel_op_ok_before_removal_visible");
                 h.successes += 1;
@@ -145,18 +187,6 @@ fn run_op<S: AfcState<CipherSuite = super::world::CS>>(
                 }
             }
         }
-    } else {
-        match &r {
-            OpResult::Ok(seq) => {
-                let want = if kind == "seal" { h.successes } else { 0 };
-                if *seq != want {
-                    oracle_fail!("{kind} on a channel that was not removed returned sequence {seq}, expected {want}");
-                }
-                h.successes += 1;
-                stats::count("kept_channel_op_ok");
-            }
-            other => oracle_fail!("{kind} on a channel that was not removed failed: {}", other.short()),
-        }
     }
     format!("{which}{}:{}", if after { "+" } else { "" }, match r { OpResult::Ok(_) => "ok", OpResult::NotFound => "nf", OpResult::Other(_) => "err" })
 }
@@ -174,8 +204,13 @@ fn body<B: Backend>(shape: &Shape) {
         let y = B::add(&w, &spec_y).expect("add y");
         (B::add(&w, &spec_x).expect("add x"), y)
     };
-    let y_removed = shape.removal == Removal::All;
-    let returned = Arc::new(AtomicBool::new(false));
+    let y_removed = shape.removal == Removal::All || shape.then_remove_y;
+    let fx = Flags::new();
+    let fy = match (shape.removal, shape.then_remove_y) {
+        (Removal::All, _) => Some(fx.clone()),
+        (_, true) => Some(Flags::new()),
+        _ => None,
+    };
     let checker = readers.pop().expect("one extra handle for the final check");
 
     // contexts are set up before the removal starts (cached keys)
@@ -189,13 +224,14 @@ fn body<B: Backend>(shape: &Shape) {
         if !shared_contexts && n > 1 && ((i == 0 && wants_y) || (i == 1 && wants_x)) {
             panic!("harness: program not valid for the in-memory state");
         }
-        let hx = wants_x.then(|| setup(&c, x, shape.dir, true));
-        let hy = wants_y.then(|| setup(&c, y, shape.dir, y_removed));
+        let hx = wants_x.then(|| setup(&c, x, shape.dir, Some(fx.clone())));
+        let hy = wants_y.then(|| setup(&c, y, shape.dir, fy.clone()));
         jobs.push((c, prog, hx, hy));
     }
 
-    let do_removal = |w: &B::Writer| {
+    let do_removals = |w: &B::Writer| {
         stats::op();
+        fx.started.store(true, Ordering::SeqCst);
         stats::event("writer: removal starts");
         let r = match shape.removal {
             Removal::One => w.remove(x),
@@ -206,25 +242,34 @@ fn body<B: Backend>(shape: &Shape) {
             oracle_fail!("removal failed: {e}");
         }
         stats::event("writer: removal returned");
+        fx.returned.store(true, Ordering::SeqCst);
+        if shape.then_remove_y {
+            let fy = fy.as_ref().expect("flags for y");
+            stats::op();
+            fy.started.store(true, Ordering::SeqCst);
+            stats::event("writer: remove(y) starts");
+            if let Err(e) = w.remove(y) {
+                oracle_fail!("removal failed: {e}");
+            }
+            stats::event("writer: remove(y) returned");
+            fy.returned.store(true, Ordering::SeqCst);
+        }
     };
 
     let mut outcomes = Vec::new();
     if shape.strict {
-        do_removal(&w);
-        returned.store(true, Ordering::SeqCst);
+        do_removals(&w);
     }
     let strict = shape.strict;
     let mut joins = Vec::new();
     for (c, prog, mut hx, mut hy) in jobs {
-        let returned = Arc::clone(&returned);
         let (sx, sy) = (Arc::clone(&spec_x), Arc::clone(&spec_y));
         let run = move || {
             let mut log = Vec::new();
             for op in prog {
-                let after = returned.load(Ordering::SeqCst);
                 let s = match op {
-                    ROp::X => run_op(&c, hx.as_mut().expect("context for x"), &sx, 'x', after, strict),
-                    ROp::Y => run_op(&c, hy.as_mut().expect("context for y"), &sy, 'y', after, strict),
+                    ROp::X => run_op(&c, hx.as_mut().expect("context for x"), &sx, 'x', strict),
+                    ROp::Y => run_op(&c, hy.as_mut().expect("context for y"), &sy, 'y', strict),
                 };
                 log.push(s);
             }
@@ -237,8 +282,7 @@ fn body<B: Backend>(shape: &Shape) {
         }
     }
     if !strict {
-        do_removal(&w);
-        returned.store(true, Ordering::SeqCst);
+        do_removals(&w);
         for j in joins {
             outcomes.push(j.join().expect("reader panicked"));
         }
@@ -288,15 +332,26 @@ fn programs(max_len: usize) -> Vec<Vec<ROp>> {
     out
 }
 
-/// All shapes of one family. `family`: 0 = strict sequential, 1 = one reader, 2 = two readers.
+/// All shapes of one family. `family`: 0 = strict sequential, 1 = one reader, 2 = two readers,
+/// 3 = one reader against two successive removals (x, then y).
 fn shapes(backend: &str, family: i64, max_len: usize) -> Vec<Shape> {
     let mut out = Vec::new();
     for removal in [Removal::One, Removal::All, Removal::If] {
+        if family == 3 && removal == Removal::All {
+            continue;
+        }
         for dir in [Dir::Seal, Dir::Open] {
             for x_first in [true, false] {
                 let progs: Vec<Vec<Vec<ROp>>> = match family {
                     0 => vec![vec![vec![ROp::X, ROp::X, ROp::Y]], vec![vec![ROp::Y, ROp::X, ROp::X]]],
                     1 => programs(max_len).into_iter().map(|p| vec![p]).collect(),
+                    // two removals: only programs that touch y at least twice can tell a stale
+                    // cache from a fresh one
+                    3 => programs(max_len)
+                        .into_iter()
+                        .filter(|p| p.iter().filter(|o| **o == ROp::Y).count() >= 2)
+                        .map(|p| vec![p])
+                        .collect(),
                     _ => {
                         if backend == "shm" {
                             // both readers hold contexts for both channels
@@ -311,7 +366,7 @@ fn shapes(backend: &str, family: i64, max_len: usize) -> Vec<Shape> {
                     }
                 };
                 for programs in progs {
-                    out.push(Shape { removal, dir, x_first, programs, strict: family == 0 });
+                    out.push(Shape { removal, dir, x_first, programs, strict: family == 0, then_remove_y: family == 3 });
                 }
             }
         }
@@ -319,7 +374,7 @@ fn shapes(backend: &str, family: i64, max_len: usize) -> Vec<Shape> {
     out
 }
 
-/// params: [backend (0 shm, 1 memory), family (0 strict sequential | 1 one reader | 2 two readers),
+/// params: [backend (0 shm, 1 memory), family (0 strict sequential | 1 one reader | 2 two readers | 3 two removals),
 ///          max program length (family 1), shard, shards]
 pub fn scenarios(params: &[i64]) -> Vec<Scenario> {
     let backend = params.first().copied().unwrap_or(0);
